@@ -19,6 +19,7 @@ type memberFact struct {
 	key     string
 	present bool
 	via     string // if | early-exit | range-key | range-value-id
+	mt      types.Type // type of the map expression (the map may be a field of a struct parameter)
 }
 
 // terminates: the block always leaves the enclosing iteration/function.
@@ -76,14 +77,19 @@ func condMembers(d *declInfo, cond ast.Expr, positive bool, lookups map[types.Ob
 			}
 			return nil
 		}
+	case *ast.CallExpr:
+		// a slice used as a set: `if slices.Contains(seen, k)`
+		if ix := sliceSetLookup(d, e); ix != nil {
+			return []memberFact{{m: baseObj(d, ix.X), mexpr: types.ExprString(ix.X), key: types.ExprString(ix.Index), present: positive, via: via, mt: d.pkg.TypesInfo.TypeOf(ix.X)}}
+		}
 	case *ast.IndexExpr:
 		// a map[K]bool used as a set: `if seen[k]`
 		if ix := boolSetLookup(d, e); ix != nil {
-			return []memberFact{{m: baseObj(d, ix.X), mexpr: types.ExprString(ix.X), key: types.ExprString(ix.Index), present: positive, via: via}}
+			return []memberFact{{m: baseObj(d, ix.X), mexpr: types.ExprString(ix.X), key: types.ExprString(ix.Index), present: positive, via: via, mt: d.pkg.TypesInfo.TypeOf(ix.X)}}
 		}
 	case *ast.Ident:
 		if ix, ok := lookups[objOf(d.pkg, e)]; ok {
-			return []memberFact{{m: baseObj(d, ix.X), mexpr: types.ExprString(ix.X), key: types.ExprString(ix.Index), present: positive, via: via}}
+			return []memberFact{{m: baseObj(d, ix.X), mexpr: types.ExprString(ix.X), key: types.ExprString(ix.Index), present: positive, via: via, mt: d.pkg.TypesInfo.TypeOf(ix.X)}}
 		}
 	}
 	return nil
